@@ -1,0 +1,19 @@
+//go:build verif
+
+package cache
+
+// Contracts for the deductive verifier in /verif (govc). Comments only; build tag "verif".
+//
+// C05, the serving caches: a cached accessor is closed (on eviction or removal) only after its readers
+// are done; "done" is a channel that is closed when the reference count drops to zero and therefore has
+// to be a new, open channel whenever the count goes from zero to one again - otherwise the next close of
+// the entry would not wait for the readers that hold it. ($ToOne: the increment made the count one.)
+//@ extern (*sync/atomic.Int32).Add
+//@   effect $ToOne := result == 1
+//@ func (*accessor).addRef
+//@   property C05
+//@   noframe
+//@   requires s != nil
+//@   havoc $ToOne
+//@   ensures err == nil && $ToOne ==> isFresh(s.done)
+//@   ensures old(s.isClosed) ==> err != nil
